@@ -3,12 +3,19 @@
 import subprocess, sys, re
 prop = sys.argv[1]; tier = sys.argv[2]; seeds = sys.argv[3:] or ["1"]
 sigs = {}
+per_seed = {}
 for sd in seeds:
     p = subprocess.run(["./check", prop, "--tier", tier, "--seed", sd], cwd="/verif", stdout=subprocess.PIPE, text=True)
     lines = p.stdout.splitlines()
     for i, l in enumerate(lines):
         if l.startswith("  sig="):
             sigs.setdefault(l[6:], lines[i+1].strip() if i+1 < len(lines) else "")
+            per_seed.setdefault(sd, set()).add(l[6:])
     print("seed", sd, "exit", p.returncode, lines[-2] if len(lines) > 1 else "", file=sys.stderr)
 for s in sorted(sigs):
     print(s, "\t", sigs[s][:260])
+
+for sd in seeds:
+    missing = set(sigs) - per_seed.get(sd, set())
+    if missing:
+        print("seed", sd, "did not hit:", sorted(missing), file=sys.stderr)
